@@ -173,12 +173,14 @@ pub fn run(part: &mut Part) {
                     prof("cursor near file end / all-dead file x A_roll", file_end, a_roll(), if q { 3 } else { 4 }),
                     all_seeds_prof(a_roll(), if q { 2 } else { 3 }, q),
                     prof("queues a,b created x special payload sizes", vec![seed_ab()], a_sizes(), if q { 3 } else { 4 }),
+                    prof("mass release (5-33 files by one call) x (roll over, release, restart)", mass_release_seeds(), a_release(), if q { 4 } else { 5 }),
                 ]
             } else {
                 let mut s = vec![seed_empty()];
                 s.extend(structural_seeds());
                 s.extend(file_end);
-                vec![prof("empty+structural+file-end x A_roll", s, a_roll(), if q { 2 } else { 3 }), prof("queues a,b created x special payload sizes", vec![seed_ab()], a_sizes(), if q { 2 } else { 3 })]
+                vec![prof("empty+structural+file-end x A_roll", s, a_roll(), if q { 2 } else { 3 }), prof("queues a,b created x special payload sizes", vec![seed_ab()], a_sizes(), if q { 2 } else { 3 }),
+                    prof("mass release (5-17 files by one call) x (roll over, release, restart)", mass_release_seeds().into_iter().take(3).collect(), a_release(), if q { 3 } else { 4 })]
             };
             let mons: Vec<Monitors> = seeds_hash
                 .iter()
@@ -526,11 +528,13 @@ pub fn run(part: &mut Part) {
                     prof("empty x A_roll", vec![seed_empty()], a_roll(), if q { 5 } else { 6 }),
                     prof("shared-file seeds x A_roll", seeds, a_roll(), if q { 3 } else { 4 }),
                     all_seeds_prof(a_roll(), if q { 2 } else { 3 }, q),
+                    prof("mass release (5-33 files by one call) x (roll over, release, restart)", mass_release_seeds(), a_release(), if q { 4 } else { 5 }),
                 ]
             } else {
                 let mut s = vec![seed_empty()];
                 s.extend(seeds);
-                vec![prof("empty+shared-file seeds x A_roll", s, a_roll(), if q { 2 } else { 3 })]
+                vec![prof("empty+shared-file seeds x A_roll", s, a_roll(), if q { 2 } else { 3 }),
+                    prof("mass release (5-17 files by one call) x (roll over, release, restart)", mass_release_seeds().into_iter().take(3).collect(), a_release(), if q { 3 } else { 4 })]
             };
             let descr: Vec<_> = profiles.iter().map(|p| p.describe()).collect();
             let stats = explore(&profiles, part.seed, |env, leaf| c18_leaf(env, leaf));
